@@ -36,7 +36,7 @@ ASSUMPTIONS = ["observer instances never outlive their own time-out, victims are
                "global endpoints (metrics) are excluded from the comparison",
                "the oracle is self-relative: a defect that is identical in the interleaved and the solo run does not surface here"]
 FAULT_KINDS = ["request_interleaving", "victim_expiry", "victim_stop", "preemption"]
-PROBES = ["creation_in_flight_with_another_instances_request", "scenarios_from_files", "session_on_its_own_time_grid", "instances_created_by_one_batch_request", "server_level_run_traffic", "same_settings_on_two_instances", "victim_swept_by_observer_request", "victim_stopped", "settings_differ_between_instances", "shared_base_model",
+PROBES = ["save_of_one_instance_fails", "creation_in_flight_with_another_instances_request", "scenarios_from_files", "session_on_its_own_time_grid", "instances_created_by_one_batch_request", "server_level_run_traffic", "same_settings_on_two_instances", "victim_swept_by_observer_request", "victim_stopped", "settings_differ_between_instances", "shared_base_model",
           "adapter_files_compared"]
 EXHAUSTIVE = {"quick": False, "thorough": False}
 
@@ -119,6 +119,8 @@ def generate(spec):
             r = rng.random()
             if r < 0.30:
                 ops.append({"t_us": t, "inst": j, "op": "run_step", "settings": {}})
+                if adapter and rng.random() < 0.12:
+                    ops[-1]["save_fault"] = rng.choice(["eio_on_open", "eio_on_write"])
                 if rng.random() < 0.3:
                     ops[-1]["flat"] = True      # this client wants flat results; nobody else asked for them
             elif r < 0.50:
@@ -216,6 +218,16 @@ def _do(w, ids, o, tag=None):
         return w.post("/%s/begin-session" % iid, {"scenario_managers": ["smA"], "scenarios": o["scenarios"],
                                                   "equations": o["equations"], "settings": o["settings"]})
     if op == "run_step":
+        from sim.threads import Scheduler as _S
+        if o.get("save_fault") and w.adapter_mode:
+            # the state store fails while THIS instance externalises its state (disk error): part of this instance's own
+            # history (its solo replay has the same fault), none of the others' business.  (Armed for this request only.)
+            w.fs.armed = {"kind": o["save_fault"]}
+            w.result.probe("save_of_one_instance_fails")
+            try:
+                return w.post("/%s/run-step" % iid, None if o["settings"] is None else dict({"settings": o["settings"]}, **({"flatResults": True} if o.get("flat") else {})), tag=tag)
+            finally:
+                w.fs.armed = None
         return w.post("/%s/run-step" % iid, None if o["settings"] is None else dict({"settings": o["settings"]}, **({"flatResults": True} if o.get("flat") else {})), tag=tag)
     if op == "run_steps":
         return w.post("/%s/run-steps" % iid, {"settings": o["settings"], "numberSteps": o["n"]}, tag=tag)
@@ -443,6 +455,9 @@ def execute(case):
         case = copy.deepcopy(case)
         for n in pairs:
             case["ops"][n + 1]["t_us"] = case["ops"][n]["t_us"]
+            # (an armed disk fault would hit whichever of the two requests writes first: no injected fault inside a pair)
+            case["ops"][n].pop("save_fault", None)
+            case["ops"][n + 1].pop("save_fault", None)
     inter, ifiles = _run(case, None, log, res, conc=conc)
     fate = _fate(case)
     k = len(case["instances"])
